@@ -4,6 +4,7 @@ CONSTANTS MaxW = 3
           MinCells = 9
           MaxCells = 9
           AlphaName = "two"
+          OpSet = "area"
           Prot = FALSE
           Quirks <- EngineQuirks
 INVARIANT ResultKinds
